@@ -222,6 +222,9 @@ Lemma nr_ok_map : forall (r : nr_result) (f : list Z -> list Z),
   = match nr_ok r with Some l => Some (f l) | None => None end.
 Proof. intros [l|k p] f; reflexivity. Qed.
 
+(* The model of QUtil::parse_numrange accepts exactly the strings of the manual's range
+   grammar and returns exactly the page list the declarative denotation gives; every other
+   string, and every out-of-range number, is rejected. For all strings, all max. *)
 Lemma numrange_spec_lemma : forall s max, nr_ok (parse_numrange s max) = range_spec s max.
 Proof.
   intros s max. unfold parse_numrange, range_spec, parse_syntax.
@@ -352,6 +355,7 @@ Proof.
     + symmetry. apply (rounds_empty_concat _ sels cs Hpos r (Hg eq_refl)). lia.
 Qed.
 
+(* The collation loop of handlePageSpecs is the round-robin of the manual. *)
 Lemma collate_refines_lemma : forall (A : Type) (sels : list (list A)) (cs : list nat),
   length cs = length sels -> Forall (fun c => 0 < c)%nat cs ->
   collate sels cs = collate_spec sels cs.
@@ -419,6 +423,7 @@ Proof.
       apply Permutation.Permutation_app_head. apply IH; try assumption. lia.
 Qed.
 
+(* Collation neither loses nor duplicates a selected page. *)
 Lemma collate_perm_lemma : forall (A : Type) (sels : list (list A)) (cs : list nat),
   length cs = length sels -> Forall (fun c => 0 < c)%nat cs ->
   Permutation.Permutation (collate sels cs) (concat sels).
@@ -464,6 +469,8 @@ Proof.
     + constructor.
 Qed.
 
+(* The split outputs concatenated in order reproduce the page sequence; every file has
+   between 1 and n pages. *)
 Lemma split_concat_lemma : forall (A : Type) (n : nat) (ps : list A), (0 < n)%nat ->
   concat (split_pages n ps) = ps
   /\ Forall (fun c => 0 < length c <= n)%nat (split_pages n ps).
@@ -484,6 +491,8 @@ Proof.
   - apply Z.mod_divide in e'; [|lia]. apply Z.rem_divide in e'; [|lia]. contradiction.
 Qed.
 
+(* Rotation: the written /Rotate is congruent to the requested one modulo 360 (C++ % written
+   out), and lies in [0,360) whenever the sum is at least -360. *)
 Lemma rotate_mod360_lemma : forall old a rel r, (a mod 90 = 0)%Z ->
   rotate_angle old a rel = Some r ->
   let eff := if (old mod 90 =? 0)%Z then old else 0%Z in
